@@ -42,6 +42,28 @@ MaxSeq(segs) == IF segs = <<>> THEN 0 ELSE segs[Len(segs)].seq
 Cur(segs) == {i \in 1..Len(segs) : segs[i].cur}
 ById(segs, id) == {i \in 1..Len(segs) : segs[i].id = id}
 
+\* segment meta data (segment.go: segmentMeta), which compaction's choice of segments rests on: the record counters
+\* count the records in the file, DeletedKeys counts the put records no longer referenced (overwritten or deleted
+\* later), DeletedBytes their bytes plus the bytes of the delete records (compaction drops those too)
+Idx(n) == [j \in 1..n |-> j]
+LastRec(segs) ==      \* key -> <<segment position, record position>> of the last record about that key
+  FoldLeft(LAMBDA m, si : FoldLeft(LAMBDA m2, j : PutF(m2, segs[si].recs[j][2], <<si, j>>), m, Idx(Len(segs[si].recs))),
+           [x \in {} |-> <<0, 0>>], Idx(Len(segs)))
+SumOver(recs, S) == FoldLeft(LAMBDA acc, j : IF j \in S THEN acc + recs[j][4] ELSE acc, 0, Idx(Len(recs)))
+MetaOK(segs) ==
+  LET last == LastRec(segs) IN
+  \A si \in 1..Len(segs) :
+    LET recs == segs[si].recs
+        P    == {j \in 1..Len(recs) : recs[j][1] = "put"}
+        D    == {j \in 1..Len(recs) : recs[j][1] = "del"}
+        dead == {j \in P : last[recs[j][2]] # <<si, j>>}
+    IN /\ segs[si].puts = Cardinality(P)
+       /\ segs[si].dels = Cardinality(D)
+       /\ segs[si].dkeys = Cardinality(dead)
+       /\ segs[si].dbytes = SumOver(recs, dead \cup D)
+\* (evaluated where the meta data is rebuilt, persisted, reloaded or used - a wrong counter does not heal)
+MetaAt(e) == e.after \in {"open", "recovered", "tear", "compact", "sync", "backup"} => MetaOK(e.segs)
+
 -----------------------------------------------------------------------------
 (* invariants of Wal.tla, evaluated on the observed state                   *)
 StateOK(segs, m) ==
@@ -102,8 +124,14 @@ WInit == l = 1 /\ st = <<>> /\ kv = [x \in {} |-> ""] /\ maxseg = 0 /\ TLCSet(1,
 WReset == Is("reset") /\ Step /\ st' = <<>> /\ kv' = [x \in {} |-> ""] /\ maxseg' = Ev.maxseg
 
 \* after Open / reopen / recovery: the state is taken as logged (judged by StateOK only)
-WOpened == Is("wal") /\ Ev.after \in {"open", "recovered", "tear"} /\ Step
-           /\ StateOK(Ev.segs, kv) /\ st' = Ev.segs /\ UNCHANGED <<kv, maxseg>>
+\* after a simulated unclean shutdown (garbage appended to / bytes cut off the newest segment): the contents are
+\* re-based on what the files replay to
+WTorn == Is("wal") /\ Ev.after = "tear" /\ Step
+         /\ kv' = Replay(Ev.segs)
+         /\ StateOK(Ev.segs, kv') /\ MetaAt(Ev) /\ st' = Ev.segs /\ UNCHANGED maxseg
+
+WOpened == Is("wal") /\ Ev.after \in {"open", "recovered"} /\ Step
+           /\ StateOK(Ev.segs, kv) /\ MetaAt(Ev) /\ st' = Ev.segs /\ UNCHANGED <<kv, maxseg>>
 
 WPut == Is("wal") /\ Ev.after = "put" /\ Step
         /\ kv' = PutF(kv, Ev.rec[2], Ev.rec[3])
@@ -120,19 +148,19 @@ WDel == Is("wal") /\ Ev.after = "del" /\ Step
         /\ st' = Ev.segs /\ UNCHANGED maxseg
 
 WCompact == Is("wal") /\ Ev.after = "compact" /\ Step
-            /\ StateOK(Ev.segs, kv)
+            /\ StateOK(Ev.segs, kv) /\ MetaAt(Ev)
             /\ CompactOK(st, Ev.segs)
             /\ st' = Ev.segs /\ UNCHANGED <<kv, maxseg>>
 
 \* calls that must not change the log
 WSame == Is("wal") /\ Ev.after \in {"sync", "get", "has", "count", "items", "getappend", "backup"} /\ Step
-         /\ StateOK(Ev.segs, kv)
+         /\ StateOK(Ev.segs, kv) /\ MetaAt(Ev)
          /\ Kept(st, Ev.segs) /\ Len(Ev.segs) = Len(st)
          /\ st' = Ev.segs /\ UNCHANGED <<kv, maxseg>>
 
 WOther == l <= Len(Trace) /\ Trace[l].e \notin {"reset", "wal"} /\ Step /\ UNCHANGED <<st, kv, maxseg>>
 
-WNext == WReset \/ WOpened \/ WPut \/ WDel \/ WCompact \/ WSame \/ WOther
+WNext == WReset \/ WOpened \/ WTorn \/ WPut \/ WDel \/ WCompact \/ WSame \/ WOther
 WSpec == WInit /\ [][WNext]_wvars
 
 HighWater == TLCSet(1, IF TLCGet(1) >= l THEN TLCGet(1) ELSE l)
